@@ -33,6 +33,9 @@ class VLoop(asyncio.SelectorEventLoop):
             self._timer_cancelled_count -= 1
         if not self._ready and self._scheduled:
             self._vt = max(self._vt, self._scheduled[0]._when)
+        if not self._ready and not self._scheduled:
+            # nothing can ever happen again: do not block in select()
+            raise RuntimeError("virtual loop: every task is blocked and no timer is pending")
         super()._run_once()
 
     def add_reader(self, fd, cb, *a):
@@ -285,6 +288,10 @@ class SerialSim:
 
     def rx(self, data):
         self.feed(luba_rx(data) if self.kind == "luba" else sci_rx(data))
+
+    def auto_confirm(self, delay):
+        """the gateway confirms every frame it is asked to send, `delay` seconds after the write"""
+        self.tr.on_write = lambda b: self.loop.call_later(delay, self.confirm, b)
 
     def confirm(self, written):
         """the gateway confirms the frame it was asked to send (`written` = bytes of our write)"""
